@@ -1754,21 +1754,35 @@ def mon_c12_usable(case_line, acts):
 
 def mon_c15_stream(case_line, acts):
     """C15 inbound: whatever the sizes and arrival times of the pieces, and whether or not a waiting read was dropped in
-    between, the messages surfaced on a connection are exactly the PUBLISH packets among the complete packets the client
-    has read on it, in order - as long as every complete packet read is certainly valid and no operation failed."""
+    between, the messages surfaced on a connection are exactly the deliverable PUBLISH packets among the complete packets
+    the client has read on it, in order - as long as every complete packet read is certainly valid and no operation failed.
+    Deliverable is what C04 says: a QoS 2 PUBLISH whose identifier is pending (its PUBLISH was handled, on this connection
+    or on one the session was resumed from, and its PUBREL has not been read yet) is a retransmission - acknowledged, not
+    delivered again.  The identifiers pending when the connection starts are read off the state printed after connect();
+    from there on the set follows the packets of the stream.  A ninth concurrent QoS 2 exchange is a broker exceeding the
+    Receive Maximum: nothing is judged on that connection."""
     out = []
     rxcap = case_cfg(case_line)['rx']
-    got = []; inb = bytearray(); bad = False
+    got = []; inb = bytearray(); bad = False; pending0 = set()
     def settle(where):
         if bad:
             return
         want = []
+        pending = set(pending0)
         for first, body in parse_server_packets(bytes(inb)):
             if first >> 4 == 3:
                 m = _parse_inbound_publish(first, body)
                 if m is None:
                     return
+                if m['q'] == 2:
+                    if m['pid'] in pending:
+                        continue        # retransmission inside an open exchange (C04): PUBREC again, no second delivery
+                    if len(pending) >= 8:
+                        return          # more QoS 2 exchanges than the advertised Receive Maximum
+                    pending.add(m['pid'])
                 want.append(('x' + m['topic'].hex(), 'x' + m['payload'].hex(), str(m['q'])))
+            elif first >> 4 == 6 and len(body) >= 2:
+                pending.discard((body[0] << 8) | body[1])
         if got != want:
             k = next((j for j, (x, y) in enumerate(zip(got, want)) if x != y), min(len(got), len(want)))
             out.append(V('%s: %d complete PUBLISH packets were read on the connection, %d messages surfaced; first mismatch at #%d '
@@ -1780,7 +1794,7 @@ def mon_c15_stream(case_line, acts):
             settle('before the connect at action #%d' % i)
             if out:
                 return out
-            inb = bytearray(); got = []; bad = False
+            inb = bytearray(); got = []; bad = False; pending0 = set()
         n0 = len(inb)
         for e in a.events:
             if e[0] == 'r' and e[2]:
@@ -1788,10 +1802,11 @@ def mon_c15_stream(case_line, acts):
         if a.code == 0:
             # the CONNACK is consumed by connect(); anything after it belongs to the connection
             pk = parse_server_packets(bytes(inb))
-            if not res.startswith('ok') or not pk:
+            if not res.startswith('ok') or not pk or 'srv' not in (a.state or {}):
                 bad = True
             else:
                 inb = inb[1 + len(pk[0][1]) + len(_varint_bytes(len(pk[0][1]))):]
+                pending0 = set(int(x) for x in list_field(a.state['srv']))
             continue
         if res in ('PANIC', 'FUEL') or (res.startswith('err') and not res.startswith('err InvalidPacket')):
             bad = True
@@ -1799,8 +1814,8 @@ def mon_c15_stream(case_line, acts):
         for first, body in parse_server_packets(bytes(inb)):
             size = 1 + len(body) + len(_varint_bytes(len(body)))
             used += size
-            if size > rxcap:
-                bad = True
+            if size > rxcap or first >> 4 == 2:
+                bad = True      # too large for the receive buffer; or a second CONNACK (a protocol error, refused)
             try:
                 mqttspec.parse_server_packet(first, body)
             except Exception:
@@ -1953,6 +1968,103 @@ def mon_c13_wire(case_line, acts):
             out.append(V('after the future of action #%d was dropped, the bytes written on that transport no longer form '
                          'packets: %s (%s)' % (cancelled[0], err, p['raw'].hex()[:80])))
             break
+    return out
+
+
+def mon_answered_released(case_line, acts):
+    """C16 / C17: the final acknowledgement of a retained request ends it, WHATEVER its reason codes say - a SUBACK or
+    UNSUBACK that refuses some or all filters, a failing PUBACK or PUBREC, are answers like the granting ones.  After the
+    call that consumed the acknowledgement the request is no longer retained: it does not stay pending for ever (C16), does
+    not keep its in-flight slot and its arena bytes (C17), and is not replayed on the next connection.  Judged only for an
+    acknowledgement whose type fits the retained packet of that identifier (PUBACK: QoS 1 PUBLISH, PUBREC: QoS 2 PUBLISH,
+    SUBACK: SUBSCRIBE, UNSUBACK: UNSUBSCRIBE) and that the call certainly consumed (a call ending in an error other than
+    the surfaced refusal may have rejected the last packet it read: that one is not counted)."""
+    out = []
+    fl = Flow(acts)
+    rx = {}
+    for ev in fl.events:
+        if ev[0] == 'rx':
+            rx.setdefault(ev[4], []).append((ev[2], ev[3]))
+    FITS = {4: lambda b: b >> 4 == 3 and (b >> 1) & 3 == 1, 5: lambda b: b >> 4 == 3 and (b >> 1) & 3 == 2,
+            9: lambda b: b >> 4 == 8, 11: lambda b: b >> 4 == 10}
+    NAMES = {4: 'PUBACK', 5: 'PUBREC', 9: 'SUBACK', 11: 'UNSUBACK'}
+    for i, a in enumerate(acts):
+        res = a.result or ''
+        evs = rx.get(i, [])
+        if a.code == 0 or i == 0 or not evs or res in ('PANIC', 'FUEL') or a.state is None or acts[i - 1].state is None:
+            continue
+        if res.startswith('err') and not res.startswith('err Rejected('):
+            evs = evs[:-1]
+        if a.state.get('gen') != acts[i - 1].state.get('gen'):
+            continue
+        before = _ret_bytes(acts[i - 1].state)
+        after = _ret_bytes(a.state)
+        for first, body in evs:
+            typ = first >> 4
+            if typ not in FITS or len(body) < 2:
+                continue
+            pid = (body[0] << 8) | body[1]
+            img = before.get(pid)
+            if img is None or not FITS[typ](img[0]):
+                continue
+            if after.get(pid) == img:
+                code = None
+                try:
+                    if typ in (9, 11):
+                        n, j = mqttspec.varint(bytes(body), 2)
+                        code = max(body[j + n:], default=None)
+                    elif len(body) >= 3:
+                        code = body[2]
+                except Exception:
+                    pass
+                out.append(V('the %s of identifier %d%s was consumed by action #%d ("%s"); the request it answers (%s...) is '
+                             'still retained afterwards: it stays pending, keeps its slot and %d arena bytes, and will be sent again'
+                             % (NAMES[typ], pid, '' if code is None else ' (reason 0x%02x)' % code, i, res[:30],
+                                img[:12].hex(), len(img))))
+                return out
+            before.pop(pid, None)
+    return out
+
+
+def mon_c13_flush(case_line, acts):
+    """C13, the await point "pending flush": a cancel-safe operation (drive, poll, recv, subscribe, unsubscribe, a QoS 1/2
+    publish) whose future is dropped while the flush of a completely written packet is pending has NOT handed the packet
+    over: the uncancelled execution ends with that flush completed, so the continuation must complete it too.  From the
+    transport calls alone: after such a drop, the first later drive() / poll() / request that runs to its end on the same
+    live connection without a fault has called flush() successfully (no client state is consulted: a client that marks the
+    packet sent before the flush it still owes looks, in its own books, exactly like one that finished)."""
+    out = []
+    NOOP = (8, 9, 12, 13, 14)
+    for i, a in enumerate(acts):
+        if a.code not in (1, 2, 3, 5, 6, 7) or a.result != 'cancelled' or not a.state or a.state.get('live') != '1':
+            continue
+        io = [e for e in a.events if e[0] in ('w', 'f', 'r')]
+        if not io or io[-1][0] != 'f' or io[-1][1] == 'ok':
+            continue
+        wrote = [e for e in io if e[0] == 'w']
+        if not wrote or not wrote[-1][2] or (a.code == 1 and qos0_partial(a)):
+            continue
+        for j in range(i + 1, len(acts)):
+            b = acts[j]
+            res = b.result or ''
+            if b.code in NOOP:
+                continue
+            if b.code in (0, 4, 10, 11) or not b.state or b.state.get('live') != '1' or res in ('PANIC', 'FUEL', 'cancelled'):
+                break
+            if any((e[0] == 'w' and not e[2]) or (e[0] == 'f' and e[1] != 'ok') or (e[0] == 'r' and e[2] is None)
+                   for e in b.events):
+                break
+            if any(e[0] == 'f' and e[1] == 'ok' for e in b.events):
+                break
+            if (b.code == 5 and res.startswith('ok') and not res.startswith('ok msg')) or (b.code == 6 and res == 'ok none') \
+                    or (b.code in (1, 2, 3) and res.startswith('ok op')):
+                out.append(V('the future of action #%d was dropped inside the flush of a completely written packet (%s...); '
+                             'action #%d (code %d) then ran to its end ("%s") without ever calling flush(): the packet stays in '
+                             'the transport, the uncancelled execution had flushed it'
+                             % (i, (wrote[-1][3] or '')[:16], j, b.code, res[:20])))
+                return out
+            if any(e[0] == 'w' for e in b.events):
+                break
     return out
 
 
